@@ -45,9 +45,7 @@ def runX (items : List Sexp) : Option String := do
   let sp := solutionsX w sel c
   let vs := dedupNat (sel.flatMap Term.vars ++ c.freeVars)
   let trig := (if xUnionUnderNot x then ["F-C01-1"] else []) ++
-    (if vs.any (fun v => (w.dom v).isEmpty) then ["F-C01-9"] else []) ++
-    -- a sub-query variable SHARED with the enclosing query is a bound plain variable inside the sub-query
-    (if w.doms.any (fun d => d.2.any isFalsyVal) then ["F-C01-3"] else [])
+    (if vs.any (fun v => (w.dom v).isEmpty) then ["F-C01-9"] else [])
   pure s!"model={showSet m}\tspec={showSet sp}\ttrig={",".intercalate trig}"
 
 /-- `(sharednode)`: the fixed witness of F-C01-4 — `xf = x.f; and_(not_(xf), xf == False)` over three objects with
